@@ -1,6 +1,7 @@
 #!/bin/sh
 # rmwork.sh <name> — remove the workspace made by mkwork.sh
 n="$1"
+if [ ! -e "/work/$n/.merged" ] && [ "$2" != "--force" ]; then echo "refusing to remove /work/$n: not merged (use --force)"; exit 1; fi
 git -C /repo worktree remove --force "/work/$n/repo" 2>/dev/null
 rm -rf "/work/$n"
 git -C /repo worktree prune
